@@ -31,6 +31,8 @@ type c08Pub struct {
 }
 
 type c08Cfg struct {
+	LastKnown bool // baseline supplied through WithLastKnownSync (a restarted indexer), callback delays
+	Timeouts  bool // some explicit syncs carry a context that expires while they wait
 	K        int
 	MaxAsync int // 0 = unset
 	Explicit bool
@@ -40,15 +42,16 @@ type c08Cfg struct {
 }
 
 func (k c08Cfg) String() string {
-	return fmt.Sprintf("publishers=%d max-async=%d explicit-syncs=%v bursts=%d tap-delay=%d/1000 stall=%d/1000", k.K, k.MaxAsync, k.Explicit, k.Bursts, k.Delay, k.Stall)
+	return fmt.Sprintf("publishers=%d max-async=%d explicit-syncs=%v bursts=%d tap-delay=%d/1000 stall=%d/1000 last-known-baseline=%v explicit-timeouts=%v", k.K, k.MaxAsync, k.Explicit, k.Bursts, k.Delay, k.Stall, k.LastKnown, k.Timeouts)
 }
 
 func runC08(c *vf.Ctx) {
-	c08Run(c, "announce-only", false)
-	c08Run(c, "mixed-with-explicit", true)
+	c08Run(c, "announce-only", false, false)
+	c08Run(c, "mixed-with-explicit", true, false)
+	c08Run(c, "restart-with-last-known", false, true)
 }
 
-func c08Run(c *vf.Ctx, sub string, explicit bool) {
+func c08Run(c *vf.Ctx, sub string, explicit, lastKnown bool) {
 	if !c.Active(sub) {
 		return
 	}
@@ -56,13 +59,16 @@ func c08Run(c *vf.Ctx, sub string, explicit bool) {
 	if explicit {
 		n = c.N(30, 400)
 	}
+	if lastKnown {
+		n = c.N(24, 300)
+	}
 	ids := allIdents()
 	for i := 0; i < n; i++ {
 		if !c.Mine(sub, i) || c08Stuck.Load() >= 2 {
 			continue // every stuck run costs the full quiescence deadline; two settle the verdict
 		}
 		r := c.Rand(sub, i)
-		k := c08Cfg{K: 1 + r.Intn(4), Explicit: explicit, Bursts: 2 + r.Intn(4), Delay: []int{0, 100, 300, 600}[r.Intn(4)], Stall: []int{0, 100, 300}[r.Intn(3)]}
+		k := c08Cfg{LastKnown: lastKnown, Timeouts: explicit && r.Intn(2) == 0, K: 1 + r.Intn(4), Explicit: explicit, Bursts: 2 + r.Intn(4), Delay: []int{0, 100, 300, 600}[r.Intn(4)], Stall: []int{0, 100, 300}[r.Intn(3)]}
 		switch r.Intn(6) {
 		case 0:
 		case 1:
@@ -138,6 +144,26 @@ func c08One(c *vf.Ctx, sub string, i int, r *rand.Rand, k c08Cfg, ids []Ident) {
 		hmu.Unlock()
 	}
 	opts := []dagsync.Option{dagsync.RecvAnnounce(""), dagsync.BlockHook(hook)}
+	if k.LastKnown {
+		// a restarted indexer: the store already holds the chain, the latest sync comes from a callback
+		// into the application (which takes its time)
+		lkr := rand.New(rand.NewSource(r.Int63()))
+		var lkmu sync.Mutex
+		for _, p := range pubs {
+			raw, _ := p.st.Raw(p.chain.Cids[0])
+			dst.PutRaw(p.chain.Cids[0], raw)
+		}
+		opts = append(opts, dagsync.WithLastKnownSync(func(pid peer.ID) (cid.Cid, bool) {
+			lkmu.Lock()
+			d := time.Duration(lkr.Intn(3000)) * time.Microsecond
+			lkmu.Unlock()
+			time.Sleep(d)
+			if p := byID[pid]; p != nil {
+				return p.chain.Cids[0], true
+			}
+			return cid.Undef, false
+		}))
+	}
 	if k.MaxAsync > 0 {
 		opts = append(opts, dagsync.MaxAsyncConcurrency(k.MaxAsync))
 	}
@@ -167,6 +193,9 @@ func c08One(c *vf.Ctx, sub string, i int, r *rand.Rand, k c08Cfg, ids []Ident) {
 	}()
 	// baseline: the first advertisement of every chain is synced explicitly
 	for _, p := range pubs {
+		if k.LastKnown {
+			continue
+		}
 		if _, err := s.SyncAdChain(context.Background(), p.front.AddrInfo()); err != nil {
 			c.Fail(sub, i, "baseline-sync-failed", err.Error(), nil)
 			cancelEvs()
@@ -185,12 +214,27 @@ func c08One(c *vf.Ctx, sub string, i int, r *rand.Rand, k c08Cfg, ids []Ident) {
 	var wg sync.WaitGroup
 	announced := 0
 	explicitThenAnnounce := 0
+	explicitWithDeadline := 0
 	var amu sync.Mutex
 	for _, p := range pubs {
 		wg.Add(1)
 		rr := rand.New(rand.NewSource(r.Int63()))
 		go func(p *c08Pub) {
 			defer wg.Done()
+			if k.LastKnown {
+				// the publisher re-announces the head the indexer already has, then moves on
+				h0 := p.chain.Cids[0]
+				p.mu.Lock()
+				p.ann = append(p.ann, h0)
+				p.mu.Unlock()
+				tl.mark("client.announce.call", p.id.ID, h0)
+				if err := s.Announce(context.Background(), h0, p.front.AddrInfo()); err == nil {
+					amu.Lock()
+					announced++
+					amu.Unlock()
+				}
+				tl.mark("client.announce.ret", p.id.ID, h0)
+			}
 			for b := 0; b < k.Bursts; b++ {
 				for j := 1 + rr.Intn(6); j > 0; j-- {
 					p.mu.Lock()
@@ -238,9 +282,17 @@ func c08One(c *vf.Ctx, sub string, i int, r *rand.Rand, k c08Cfg, ids []Ident) {
 				defer wg.Done()
 				for e := 0; e < 2+rr2.Intn(3); e++ {
 					time.Sleep(time.Duration(rr2.Intn(5000)) * time.Microsecond)
+					ctx, stop := context.Background(), func() {}
+					if k.Timeouts && rr2.Intn(2) == 0 {
+						ctx, stop = context.WithTimeout(context.Background(), time.Duration(50+rr2.Intn(3000))*time.Microsecond)
+						amu.Lock()
+						explicitWithDeadline++
+						amu.Unlock()
+					}
 					tl.mark("client.explicit.call", p.id.ID, cid.Undef)
-					_, _ = s.SyncAdChain(context.Background(), p.front.AddrInfo())
+					_, _ = s.SyncAdChain(ctx, p.front.AddrInfo())
 					tl.mark("client.explicit.ret", p.id.ID, cid.Undef)
+					stop()
 				}
 			}(p)
 		}
@@ -446,8 +498,8 @@ func c08One(c *vf.Ctx, sub string, i int, r *rand.Rand, k c08Cfg, ids []Ident) {
 		// duplicate requests at the publisher (fault-free run: only a second, concurrent sync can cause them)
 		reqSeen := map[string]int{}
 		for _, q := range BlockRequests(p.front.Log()) {
-			if q == "head" {
-				continue
+			if q == "head" || k.Timeouts {
+				continue // (a request abandoned by an expired context is legitimately repeated later)
 			}
 			reqSeen[q]++
 			if reqSeen[q] > 1 {
@@ -483,6 +535,10 @@ func c08One(c *vf.Ctx, sub string, i int, r *rand.Rand, k c08Cfg, ids []Ident) {
 	c.Eval(1)
 	c.Add("announcements", int64(announced))
 	c.Add("head_synced_explicitly_then_announced", int64(explicitThenAnnounce))
+	c.Add("explicit_syncs_with_expiring_context", int64(explicitWithDeadline))
+	if k.LastKnown {
+		c.Inc("runs_with_last_known_baseline")
+	}
 	c.Add("coalesced_announcements", int64(coalesced))
 	c.Add("spawn_while_previous_sync_running", int64(spawnWhileRunning))
 	c.Add("syncs_observed", int64(len(syncs)))
